@@ -506,6 +506,9 @@ def compute_batch_ranking(
     """Enrich the feature space and compute the batch importances"""
 
     input_dataframe = pd.DataFrame(line_tmp_storage, columns=column_descriptions)
+
+    # Fields absent from a line (e.g. a VW namespace that does not occur) are parsed as None; carry them as the empty string
+    input_dataframe = input_dataframe.fillna('')
     pbar.set_description('Control features')
 
     if args.feature_set_focus:
